@@ -544,25 +544,26 @@ def with_scaling(spec, rng, pow2=True):
 
 
 def out_scalings(spec, flat):
-    """per flat variable: (ref0, ref, res_ref) entrywise"""
+    """per flat variable: (ref0, ref, res_ref or None) entrywise"""
     res = []
     for v in flat['vars']:
         n = v['size']
 
         def bc(x, dflt):
             if x is None:
-                return [F(dflt)] * n
+                return None if dflt is None else [F(dflt)] * n
             x = fr(x)
             return list(x) if isinstance(x, list) else [x] * n
         if v['auto']:
-            res.append(([F(0)] * n, [F(1)] * n, [F(1)] * n))
+            res.append(([F(0)] * n, [F(1)] * n, None))
         else:
-            res.append((bc(v.get('ref0'), 0), bc(v.get('ref'), 1), bc(v.get('res_ref'), 1)))
+            res.append((bc(v.get('ref0'), 0), bc(v.get('ref'), 1), bc(v.get('res_ref'), None)))
     return res
 
 
 def gallina_oscals(spec, flat):
-    return '[%s]' % '; '.join('(mkoscal %s %s %s)' % (qvec(a), qvec(b), qvec(c)) for a, b, c in out_scalings(spec, flat))
+    return '[%s]' % '; '.join('(mkoscal %s %s %s)' % (qvec(a), qvec(b), 'None' if c is None else '(Some %s)' % qvec(c))
+                              for a, b, c in out_scalings(spec, flat))
 
 
 # ------------------------------------------------------------------------------------ flat algebra
